@@ -6,7 +6,7 @@
 From Coq Require Import Lia.
 From HpoV Require Import Gen.Consts Model.Base Model.Group Model.Onto Model.Query Model.Script Model.Binary Model.Text Model.SubOnt
   Proofs.BaseP Proofs.ClosureP Proofs.AcyclicP Proofs.DistP Proofs.QgoodP Proofs.RoundTripP Proofs.AnnotP Proofs.BuilderAnnotP
-  Proofs.BuilderICP Proofs.ReloadP Proofs.SubAnnotP Proofs.JaxP Proofs.RoundTripSrcP Proofs.DecodeAnyP Proofs.JaxDescribesP Proofs.WalkP Proofs.WalkAllP Proofs.SectionP Proofs.C04R Proofs.C04B Proofs.C16M
+  Proofs.BuilderICP Proofs.ReloadP Proofs.SubAnnotP Proofs.JaxP Proofs.RoundTripSrcP Proofs.DecodeAnyP Proofs.JaxDescribesP Proofs.WalkP Proofs.WalkAllP Proofs.SectionP Proofs.C04R Proofs.C04B Proofs.C16M Proofs.TotalReloadP
   Model.Dump Model.Similarity.
 From Coq Require Import Permutation Reals.
 
@@ -87,3 +87,13 @@ Qed.
 
 Theorem constructed_qgood icf o : constructed icf o -> qgood o.
 Proof. intros C. destruct (constructed_wellformed icf o C) as (S & _). apply (so_q o S). Qed.
+
+(* C07, last sentence, for every constructed ontology that contains the two standard roots: the
+   loader accepts what the writer emits — it neither rejects it nor panics nor runs out of fuel *)
+Theorem constructed_reload_accepted icf o order : constructed icf o -> file_ok order o -> (forall l, Permutation (order l) l) ->
+  In ROOT_ID (ar_keys (o_arena o)) -> In PHENOTYPE_ID (ar_keys (o_arena o)) ->
+  exists o'', decode icf (encode_with order o) = Ok o''.
+Proof.
+  intros C F Hp Hr Hph. destruct (constructed_wellformed icf o C) as (S & Ac & A & Ic & Nd & Dk).
+  apply (TotalReloadP.reload_accepted icf order o F S Ac A Ic Nd Dk Hp Hr Hph).
+Qed.
